@@ -1,8 +1,1087 @@
-//! C07 — monitor not built yet.
-use crate::report::{Cfg, Report};
+//! C07 — run lifecycle frames are complete, unique and causally ordered.
+//!
+//! Workload: through the real router, messages (prompts, tool envelopes, checkpoint envelopes) are
+//! posted to one thread, 1–6 in parallel, interleaved with compaction jobs. Prompts run against the
+//! scripted provider (text, tool loops, malformed / schema-invalid events, HTTP errors, resets at
+//! byte k — k swept over a whole short body — missing [DONE], empty body, headers only, endless
+//! tool requests, unrepresentable answers, missing summary artifacts → compile failure).
+//! Oracle: offline on events.jsonl, parsed independently (truth.rs).
+
+use crate::c16::toolscript::{
+    build_turn, gen_call, gen_run, mark_prompt, mark_turn, CallKind, Emission, Fault, GenOpts, Scripted, Turn,
+    TurnParts,
+};
+use crate::fixture::{runtime, wait_for, App, Store};
+use crate::prng::Rng;
+use crate::provider::{sse_done, sse_event};
+use crate::report::{Cfg, Report, Tier};
+use crate::sched::{sched, Sched};
+use crate::truth;
+use ripd::verif_export::{parse_tool_choice, OpenResponsesConfig, ToolChoiceParam};
+use serde_json::{json, Value};
+use std::collections::{BTreeMap, HashMap, HashSet};
+use std::sync::Arc;
+use std::time::{Duration, Instant};
+
+#[derive(Clone, Debug)]
+enum Action {
+    /// POST /threads/{id}/messages
+    Post { class: String, content: String, with_override: bool },
+    CompactionAuto { stride: u64, max_new: u32, dry_run: bool },
+    CompactionSchedule { stride: u64, execute: bool, block_on_inflight: bool },
+}
+
+struct Case {
+    idx: u64,
+    kind: &'static str,
+    provider_configured: bool,
+    choice_label: &'static str,
+    stateless: bool,
+    noise_us: u64,
+    seed_messages: usize,
+    phases: Vec<Vec<Action>>,
+    /// delete the compaction summary blobs before this phase (→ context compile fails afterwards)
+    delete_blobs_before_phase: Option<usize>,
+    scripts: Vec<(u32, Vec<Turn>)>,
+}
+
+// ------------------------------------------------------------------------------------------------
+// case generation
+
+fn short_turn(run: u32, turn: u32, with_call: bool, token: &str) -> Vec<u8> {
+    // deliberately small (≈ 400–500 bytes) so that every byte offset can be swept
+    let mut s = String::new();
+    let rid = format!("resp_{}", mark_turn(run, turn));
+    s.push_str(&sse_event(&json!({"type":"response.created","sequence_number":0,"response":{"id":rid}})));
+    s.push_str(&sse_event(&json!({"type":"response.output_text.delta","sequence_number":1,"item_id":"msg_1",
+        "output_index":0,"content_index":0,"delta":"hé","logprobs":[]})));
+    if with_call {
+        s.push_str(&sse_event(&json!({"type":"response.output_item.done","sequence_number":2,"output_index":1,
+            "item":{"type":"function_call","id":format!("fc{}", mark_turn(run, turn)),"call_id":format!("c{}", mark_turn(run, turn)),
+                    "name":"write","arguments": json!({"path":"s.txt","content":format!("{token}\n"),"append":true}).to_string(),
+                    "status":"completed"}})));
+    }
+    s.push_str(&sse_done());
+    s.into_bytes()
+}
+
+fn raw_turn(body: Vec<u8>, fault: Fault, rid: Option<String>) -> Turn {
+    Turn {
+        body,
+        calls: Vec::new(),
+        response_id: rid,
+        fault,
+        chunks: Vec::new(),
+        pause_us: 0,
+        malformed_json: false,
+        schema_invalid: false,
+        text_deltas: 1,
+        shuffled: false,
+    }
+}
+
+const SWEEP_SLICE: usize = 40;
+
+fn sweep_body_len() -> usize {
+    // the longest short body (two-digit run ids, with the tool call)
+    short_turn(39, 0, true, "S00r39").len()
+}
+
+/// number of sweep cases: 2 flavours × enough slices to cover offsets 0..=len (and a few beyond)
+fn sweep_cases() -> u64 {
+    2 * ((sweep_body_len() + 2) / SWEEP_SLICE + 1) as u64
+}
+
+fn sweep_case(idx: u64) -> Case {
+    let flavour = (idx % 2) as usize; // 0: reset in the first response, 1: reset in the follow-up response
+    let slice = (idx / 2) as usize;
+    let mut scripts = Vec::new();
+    let mut phase = Vec::new();
+    let mut phases = Vec::new();
+    for j in 0..SWEEP_SLICE {
+        let run = j as u32;
+        let k = slice * SWEEP_SLICE + j;
+        let token = format!("S{idx}r{run}");
+        let turns = if flavour == 0 {
+            vec![
+                raw_turn(short_turn(run, 0, true, &token), Fault::ResetAt(k), Some(format!("resp_{}", mark_turn(run, 0)))),
+                raw_turn(short_turn(run, 1, false, &token), Fault::None, None),
+            ]
+        } else {
+            vec![
+                raw_turn(short_turn(run, 0, true, &token), Fault::None, Some(format!("resp_{}", mark_turn(run, 0)))),
+                raw_turn(short_turn(run, 1, false, &token), Fault::ResetAt(k), None),
+            ]
+        };
+        scripts.push((run, turns));
+        phase.push(Action::Post {
+            class: format!("prompt/reset_sweep_turn{flavour}"),
+            content: format!("sweep {}", mark_prompt(run)),
+            with_override: false,
+        });
+        if phase.len() == 5 {
+            phases.push(std::mem::take(&mut phase));
+        }
+    }
+    if !phase.is_empty() {
+        phases.push(phase);
+    }
+    Case {
+        idx,
+        kind: "reset_sweep",
+        provider_configured: true,
+        choice_label: "auto",
+        stateless: false,
+        noise_us: 0,
+        seed_messages: 0,
+        phases,
+        delete_blobs_before_phase: None,
+        scripts,
+    }
+}
+
+fn envelope(rng: &mut Rng, tag: &str) -> (String, String) {
+    match rng.below(9) {
+        0 => (
+            "tool_envelope/success".into(),
+            json!({"tool":"write","args":{"path":"e.txt","content":format!("{tag}\n"),"append":true}}).to_string(),
+        ),
+        1 => (
+            "tool_envelope/nonzero_exit".into(),
+            json!({"tool":"bash","args":{"command":format!("echo {tag}; echo err 1>&2; exit 7"),"cwd":"."}}).to_string(),
+        ),
+        2 => (
+            "tool_envelope/timeout".into(),
+            json!({"tool":"bash","args":{"command":"sleep 0.3","cwd":"."},"timeout_ms":15}).to_string(),
+        ),
+        3 => ("tool_envelope/unknown_tool".into(), json!({"tool":"nosuch_tool","args":{"x":tag}}).to_string()),
+        4 => ("tool_envelope/invalid_args".into(), json!({"tool":"write","args":{"path":5}}).to_string()),
+        5 => ("tool_envelope/read_only".into(), json!({"tool":"ls","args":{}}).to_string()),
+        6 => (
+            "checkpoint/create".into(),
+            json!({"checkpoint":{"action":"create","label":tag,"files":["e.txt","a.txt"]}}).to_string(),
+        ),
+        7 => ("checkpoint/rewind_unknown".into(), json!({"checkpoint":{"action":"rewind","id":"no-such-id"}}).to_string()),
+        _ => (
+            "tool_envelope/apply_patch_bad".into(),
+            json!({"tool":"apply_patch","args":{"patch":"*** Begin Patch\n*** Update File: missing.txt\n@@\n-a\n+b\n*** End Patch"}}).to_string(),
+        ),
+    }
+}
+
+fn prompt_script(rng: &mut Rng, idx: u64, run: u32, tier: Tier) -> (String, Vec<Turn>) {
+    let mut o = GenOpts {
+        case: idx,
+        run,
+        turns: 1,
+        max_calls: 1 + rng.usize(5),
+        duplicates: rng.chance(1, 6),
+        unanswerable: false,
+        forever: false,
+        final_fault: Fault::None,
+        weird_events: rng.chance(1, 3),
+        no_response_id_turn: None,
+    };
+    let class: String;
+    match rng.below(16) {
+        0 | 1 => {
+            class = "text".into();
+        }
+        2..=5 => {
+            o.turns = 2 + rng.usize(3);
+            class = format!("tools{}", o.turns - 1);
+        }
+        6 => {
+            o.turns = 1 + rng.usize(3);
+            o.final_fault = Fault::Http {
+                status: [400u16, 401, 429, 500][rng.usize(4)],
+                with_body: rng.bool(),
+                echo: rng.bool(),
+            };
+            class = format!("t{}+{}", o.turns - 1, o.final_fault.class());
+        }
+        7 => {
+            o.turns = 1 + rng.usize(3);
+            o.final_fault = Fault::NoDone;
+            class = format!("t{}+no_done", o.turns - 1);
+        }
+        8 => {
+            o.turns = 1 + rng.usize(2);
+            o.final_fault = Fault::EmptyBody;
+            class = format!("t{}+empty_body", o.turns - 1);
+        }
+        9 => {
+            o.turns = 1 + rng.usize(2);
+            o.final_fault = Fault::HeadersOnly;
+            class = format!("t{}+headers_only", o.turns - 1);
+        }
+        10 | 11 => {
+            o.turns = 1 + rng.usize(3);
+            class = format!("t{}+reset", o.turns - 1);
+        }
+        12 => {
+            o.turns = 2 + rng.usize(2);
+            o.unanswerable = true;
+            class = "tools_unanswerable".into();
+        }
+        13 => {
+            o.turns = 2;
+            o.no_response_id_turn = Some(0);
+            class = "no_response_id".into();
+        }
+        14 if rng.chance(1, tier.pick(3, 2)) => {
+            o.forever = true;
+            o.max_calls = 5;
+            class = "endless_tools".into();
+        }
+        _ => {
+            o.turns = 2;
+            class = "tools1".into();
+        }
+    }
+    let mut turns = gen_run(rng, &o);
+    if class.ends_with("+reset") {
+        if let Some(t) = turns.last_mut() {
+            let k = rng.usize(t.body.len() + 1);
+            t.fault = Fault::ResetAt(k);
+        }
+    }
+    if o.unanswerable {
+        // make sure at least one call cannot be answered with a valid request
+        let c = gen_call(rng, &o, 0, 9, CallKind::LongCallId, Emission::Canonical);
+        let mut c = c;
+        c.output_index = 9;
+        let parts = TurnParts {
+            calls: vec![c],
+            text_deltas: 1,
+            with_response_id: true,
+            fault: Fault::None,
+            malformed_json: false,
+            schema_invalid: false,
+            shuffle_all: false,
+            sequential: true,
+            chunked: false,
+        };
+        turns[0] = build_turn(rng, run, 0, parts);
+    }
+    (format!("prompt/{class}"), turns)
+}
+
+fn random_case(seed: u64, idx: u64, tier: Tier) -> Case {
+    let mut rng = Rng::derive(seed, idx);
+    let provider_configured = !rng.chance(1, 10);
+    let choice_label = if !provider_configured {
+        "auto"
+    } else {
+        match rng.below(10) {
+            0 => "none",
+            1 => "function:write",
+            2 => "required",
+            _ => "auto",
+        }
+    };
+    let n_phases = 1 + rng.usize(3);
+    let mut phases = Vec::new();
+    let mut scripts = Vec::new();
+    let mut run = 0u32;
+    let use_compaction = rng.chance(1, 2);
+    for p in 0..n_phases {
+        let n_posts = match rng.below(6) {
+            0 => 1,
+            1 => 2,
+            2 => 3,
+            3 => 4,
+            4 => 5,
+            _ => 6,
+        };
+        let mut phase = Vec::new();
+        for j in 0..n_posts {
+            if rng.chance(3, 5) {
+                if provider_configured {
+                    let (class, turns) = prompt_script(&mut rng, idx, run, tier);
+                    let with_override = rng.chance(1, 10);
+                    scripts.push((run, turns));
+                    phase.push(Action::Post {
+                        class,
+                        content: format!("prompt {} {}", rng.ascii(6), mark_prompt(run)),
+                        with_override,
+                    });
+                    run += 1;
+                } else {
+                    phase.push(Action::Post {
+                        class: "prompt/stub_runtime".into(),
+                        content: if rng.chance(1, 8) { String::new() } else { format!("stub prompt {j}") },
+                        with_override: false,
+                    });
+                }
+            } else {
+                let (class, content) = envelope(&mut rng, &format!("E{idx}p{p}j{j}"));
+                phase.push(Action::Post { class, content, with_override: false });
+            }
+        }
+        if use_compaction {
+            for _ in 0..rng.usize(3) {
+                if rng.bool() {
+                    phase.push(Action::CompactionAuto {
+                        stride: 1 + rng.below(3),
+                        max_new: 1 + rng.below(3) as u32,
+                        dry_run: rng.chance(1, 6),
+                    });
+                } else {
+                    phase.push(Action::CompactionSchedule {
+                        stride: 1 + rng.below(3),
+                        execute: !rng.chance(1, 4),
+                        block_on_inflight: rng.bool(),
+                    });
+                }
+            }
+        }
+        rng.shuffle(&mut phase);
+        phases.push(phase);
+    }
+    Case {
+        idx,
+        kind: "random",
+        provider_configured,
+        choice_label,
+        stateless: rng.chance(1, 3),
+        noise_us: [0u64, 0, 200, 1000][rng.usize(4)],
+        seed_messages: if use_compaction { rng.usize(7) } else { 0 },
+        delete_blobs_before_phase: if use_compaction && n_phases > 1 && rng.chance(1, 3) {
+            Some(1 + rng.usize(n_phases - 1))
+        } else {
+            None
+        },
+        phases,
+        scripts,
+    }
+}
+
+const COMPILE_FAIL_CASES: u64 = 4;
+
+/// Seed messages → compaction job → delete the summary artifact → prompts whose context compile
+/// must fail (early-return path: no selection/compiled frames, session ends context_compile_failed).
+fn compile_failure_case(seed: u64, idx: u64, tier: Tier) -> Case {
+    let mut rng = Rng::derive(seed ^ 0xC07F, idx);
+    let variant = idx - sweep_cases();
+    let mut scripts = Vec::new();
+    let mut second = Vec::new();
+    let n = 1 + (variant as usize % 3) * 2; // 1, 3, 5 prompts in parallel
+    for run in 0..n as u32 {
+        let (class, turns) = prompt_script(&mut rng, idx, run, tier);
+        scripts.push((run, turns));
+        second.push(Action::Post {
+            class: format!("{class}@missing_summary"),
+            content: format!("after compaction {}", mark_prompt(run)),
+            with_override: false,
+        });
+    }
+    let (class, content) = envelope(&mut rng, &format!("E{idx}"));
+    second.push(Action::Post { class, content, with_override: false });
+    if variant % 2 == 1 {
+        second.push(Action::CompactionSchedule { stride: 2, execute: true, block_on_inflight: false });
+    }
+    Case {
+        idx,
+        kind: "compile_failure",
+        provider_configured: true,
+        choice_label: "auto",
+        stateless: variant >= 2,
+        noise_us: if variant % 2 == 0 { 0 } else { 300 },
+        seed_messages: 5,
+        phases: vec![vec![Action::CompactionAuto { stride: 2, max_new: 2, dry_run: false }], second],
+        delete_blobs_before_phase: Some(1),
+        scripts,
+    }
+}
+
+fn make_case(seed: u64, idx: u64, tier: Tier) -> Case {
+    if idx < sweep_cases() {
+        sweep_case(idx)
+    } else if idx < sweep_cases() + COMPILE_FAIL_CASES {
+        compile_failure_case(seed, idx, tier)
+    } else {
+        random_case(seed, idx, tier)
+    }
+}
+
+// ------------------------------------------------------------------------------------------------
 
 pub fn run(cfg: &Cfg) -> i32 {
-    let mut r = Report::new("C07", "exploration", "not built");
-    r.fatal_inconclusive("monitor not built yet");
+    let mut r = Report::new(
+        "C07",
+        "exploration",
+        "seeded thread workloads through the router: 1–3 phases of 1–6 parallel posts (prompt | tool envelope | \
+         checkpoint envelope) + compaction-auto / compaction-auto-schedule posts; prompts run scripted provider \
+         conversations (text, 1–4 tool turns, malformed/schema-invalid events, HTTP 400/401/429/500 ± body, reset \
+         at byte k, missing [DONE], empty body, headers only, endless tools, unrepresentable answers, no response \
+         id, deleted summary artifact → compile failure); the first cases sweep the reset offset k over every \
+         byte of a short two-turn script (first response / follow-up response); seeded delays at session.emit.* / \
+         log.append.* / cont.cache.*; non-trivial = ≥1 accepted run judged to its closing frame; distinct = distinct \
+         multisets of (input class → end reason) × parallelism × job activity",
+    );
+    r.assume("the judged log is read after quiescence (all accepted runs ended or watchdog); a run is declared stuck only when the provider has been idle, no tool is executing and the log has not grown for 3 s");
+    let s = sched();
+    let rt = runtime(8);
+
+    if let Some(path) = &cfg.replay {
+        let doc: Value = std::fs::read(path)
+            .ok()
+            .and_then(|b| serde_json::from_slice(&b).ok())
+            .unwrap_or(Value::Null);
+        let seed = doc.get("seed").and_then(|x| x.as_u64()).unwrap_or(cfg.seed);
+        let tier = if doc.get("tier").and_then(|x| x.as_str()) == Some("thorough") { Tier::Thorough } else { Tier::Quick };
+        match doc.get("witness").and_then(|w| w.get("case")).and_then(|x| x.as_u64()) {
+            Some(idx) => one_case(&mut r, &s, &rt, make_case(seed, idx, tier), seed),
+            None => r.fatal_inconclusive("replay file has no witness.case"),
+        }
+        s.reset();
+        return r.finish(cfg);
+    }
+
+    let max_cases = cfg.tier.pick(2_000u64, 10_000_000u64);
+    let mut idx = 0u64;
+    while idx < max_cases && !r.over(cfg) {
+        let i = idx;
+        idx += 1;
+        if !cfg.mine(i) {
+            continue;
+        }
+        one_case(&mut r, &s, &rt, make_case(cfg.seed, i, cfg.tier), cfg.seed);
+    }
+    s.reset();
+    r.note(
+        "reset_sweep",
+        json!({"short_body_bytes": sweep_body_len(), "offsets_swept": format!("0..{}", sweep_cases() as usize / 2 * SWEEP_SLICE),
+               "flavours": ["reset inside the first response (tool call in the body)", "reset inside the follow-up response (after a tool ran)"],
+               "cases": sweep_cases()}),
+    );
+    if r.counters.get("runs_judged_to_closing_frame").copied().unwrap_or(0) == 0 && r.evaluations > 0 {
+        r.fatal_inconclusive("no run was judged");
+    }
+    drop(rt);
     r.finish(cfg)
+}
+
+#[derive(Clone, Debug)]
+struct Posted {
+    class: String,
+    status: u16,
+    message_id: String,
+    session_id: String,
+}
+
+#[derive(Clone, Debug)]
+struct JobPost {
+    route: &'static str,
+    status: u16,
+    job_id: Option<String>,
+    executes: bool,
+}
+
+fn count_lines(path: &std::path::Path, needle: &str) -> usize {
+    let bytes = std::fs::read(path).unwrap_or_default();
+    String::from_utf8_lossy(&bytes).matches(needle).count()
+}
+
+fn one_case(r: &mut Report, s: &Arc<Sched>, rt: &tokio::runtime::Runtime, case: Case, seed: u64) {
+    let t_case = Instant::now();
+    let store = Store::new("c07");
+    let scripted = Scripted::start();
+    for (run, turns) in &case.scripts {
+        scripted.set_run(*run, turns.clone());
+    }
+    let endpoint = scripted.provider.endpoint();
+    let config = if case.provider_configured {
+        Some(OpenResponsesConfig {
+            endpoint: endpoint.clone(),
+            api_key: None,
+            model: Some("m".into()),
+            headers: vec![],
+            tool_choice: parse_tool_choice(case.choice_label).unwrap_or_else(|_| ToolChoiceParam::auto()),
+            followup_user_message: None,
+            stateless_history: case.stateless,
+            parallel_tool_calls: false,
+        })
+    } else {
+        None
+    };
+    s.reset();
+    if case.noise_us > 0 {
+        s.set_noise(
+            seed ^ case.idx,
+            &[
+                ("session.emit.*", case.noise_us),
+                ("log.append.enter", case.noise_us),
+                ("log.append.after_body", case.noise_us / 4),
+                ("cont.cache.enter", case.noise_us / 2),
+                ("cont.cache.exit", case.noise_us / 2),
+                ("ws.side_effects.before_append", case.noise_us),
+            ],
+        );
+    }
+    let app = match App::open(&store, config) {
+        Ok(a) => a,
+        Err(e) => {
+            r.inconclusive(&format!("case {}: engine open failed: {e}", case.idx));
+            return;
+        }
+    };
+    let log_path = store.log_path();
+    let quick_watchdog = Duration::from_secs(25);
+    let mut posted: Vec<Posted> = Vec::new();
+    let mut jobs: Vec<JobPost> = Vec::new();
+    let mut stuck = false;
+    let mut jobs_late = false;
+    let mut any_post_failed = false;
+
+    let thread_id: String = rt.block_on(async {
+        let (_, v) = app.json("POST", "/threads/ensure", None).await;
+        v.get("thread_id").and_then(|x| x.as_str()).unwrap_or("").to_string()
+    });
+    if thread_id.is_empty() {
+        r.inconclusive(&format!("case {}: /threads/ensure failed", case.idx));
+        return;
+    }
+    for m in 0..case.seed_messages {
+        let _ = app
+            .store()
+            .append_message(&thread_id, "user".into(), "rv".into(), format!("seed message {m}"));
+    }
+
+    for (pi, phase) in case.phases.iter().enumerate() {
+        if case.delete_blobs_before_phase == Some(pi) {
+            let blobs = store.ws.join(".rip").join("artifacts").join("blobs");
+            if let Ok(rd) = std::fs::read_dir(&blobs) {
+                let mut n = 0;
+                for e in rd.flatten() {
+                    if std::fs::remove_file(e.path()).is_ok() {
+                        n += 1;
+                    }
+                }
+                r.count("artifact_blobs_deleted", n);
+            }
+        }
+        let results: Vec<(usize, u16, Value)> = rt.block_on(async {
+            let mut joins = Vec::new();
+            for (ai, a) in phase.iter().enumerate() {
+                let app = app.clone();
+                let a = a.clone();
+                let tid = thread_id.clone();
+                let endpoint = endpoint.clone();
+                joins.push(tokio::spawn(async move {
+                    match a {
+                        Action::Post { content, with_override, .. } => {
+                            let mut body = json!({"content": content});
+                            if with_override {
+                                body["openresponses"] = json!({"endpoint": endpoint, "model": "m2"});
+                            }
+                            let (st, v) = app.json("POST", &format!("/threads/{tid}/messages"), Some(&body)).await;
+                            (ai, st, v)
+                        }
+                        Action::CompactionAuto { stride, max_new, dry_run } => {
+                            let body = json!({"stride_messages": stride, "max_new_checkpoints": max_new,
+                                              "dry_run": dry_run, "actor_id": "", "origin": ""});
+                            let (st, v) = app.json("POST", &format!("/threads/{tid}/compaction-auto"), Some(&body)).await;
+                            (ai, st, v)
+                        }
+                        Action::CompactionSchedule { stride, execute, block_on_inflight } => {
+                            let body = json!({"stride_messages": stride, "max_new_checkpoints": 2, "execute": execute,
+                                              "block_on_inflight": block_on_inflight, "dry_run": false,
+                                              "actor_id": "", "origin": ""});
+                            let (st, v) = app
+                                .json("POST", &format!("/threads/{tid}/compaction-auto-schedule"), Some(&body))
+                                .await;
+                            (ai, st, v)
+                        }
+                    }
+                }));
+            }
+            let mut out = Vec::new();
+            for j in joins {
+                if let Ok(x) = j.await {
+                    out.push(x);
+                }
+            }
+            out
+        });
+        for (ai, st, v) in results {
+            match &phase[ai] {
+                Action::Post { class, .. } => {
+                    if st != 202 {
+                        any_post_failed = true;
+                    }
+                    posted.push(Posted {
+                        class: class.clone(),
+                        status: st,
+                        message_id: v.get("message_id").and_then(|x| x.as_str()).unwrap_or("").to_string(),
+                        session_id: v.get("session_id").and_then(|x| x.as_str()).unwrap_or("").to_string(),
+                    });
+                }
+                Action::CompactionAuto { .. } => jobs.push(JobPost {
+                    route: "compaction-auto",
+                    status: st,
+                    job_id: v.get("job_id").and_then(|x| x.as_str()).map(|s| s.to_string()),
+                    executes: st == 202,
+                }),
+                Action::CompactionSchedule { execute, .. } => jobs.push(JobPost {
+                    route: "compaction-auto-schedule",
+                    status: st,
+                    job_id: v.get("job_id").and_then(|x| x.as_str()).map(|s| s.to_string()),
+                    executes: st == 202 && *execute,
+                }),
+            }
+        }
+        // await the runs posted so far (watchdog), then give executed jobs a short grace period: a job
+        // that never logs job_ended is not a C07 matter ("ended at most once"), it is only counted
+        let accepted = posted.iter().filter(|p| p.status == 202).count();
+        let expected_job_ends = jobs.iter().filter(|j| j.executes && j.job_id.is_some()).count();
+        let done = rt
+            .block_on(wait_for(quick_watchdog, || {
+                if count_lines(&log_path, "\"type\":\"continuity_run_ended\"") >= accepted {
+                    Some(())
+                } else {
+                    None
+                }
+            }))
+            .is_some();
+        if !done {
+            stuck = true;
+            break;
+        }
+        let jobs_done = rt
+            .block_on(wait_for(Duration::from_secs(2), || {
+                if count_lines(&log_path, "\"type\":\"continuity_job_ended\"") >= expected_job_ends {
+                    Some(())
+                } else {
+                    None
+                }
+            }))
+            .is_some();
+        if !jobs_done {
+            jobs_late = true;
+        }
+    }
+
+    // quiescence analysis when the watchdog fired
+    let mut sure_nothing_in_flight = false;
+    if stuck {
+        let t0 = Instant::now();
+        let mut last_len = std::fs::metadata(&log_path).map(|m| m.len()).unwrap_or(0);
+        let mut stable_since = Instant::now();
+        while t0.elapsed() < Duration::from_secs(8) {
+            std::thread::sleep(Duration::from_millis(100));
+            let len = std::fs::metadata(&log_path).map(|m| m.len()).unwrap_or(0);
+            if len != last_len {
+                last_len = len;
+                stable_since = Instant::now();
+            }
+            let tools_idle = s.count_of("ws.exec.begin") == s.count_of("ws.exec.end");
+            if stable_since.elapsed() > Duration::from_secs(3) && scripted.idle_for(3000) && tools_idle {
+                sure_nothing_in_flight = true;
+                break;
+            }
+        }
+    } else {
+        // trailing appends of the last run (nothing is appended after run_ended / job_ended)
+        std::thread::sleep(Duration::from_millis(2));
+    }
+    let hook_counts = s.counts();
+    drop(app);
+    if jobs_late {
+        // let a late job finish writing before the log is read
+        std::thread::sleep(Duration::from_millis(300));
+    }
+    judge(r, &store, &scripted, &case, &posted, &jobs, &thread_id, seed, stuck, sure_nothing_in_flight, any_post_failed, jobs_late);
+    r.count("tool_executions_observed(ws.exec.begin)", hook_counts.get("ws.exec.begin").copied().unwrap_or(0));
+    r.count("sse_chunks_fed_to_decoder", hook_counts.get("sse.chunk").copied().unwrap_or(0));
+    s.reset();
+    let took = t_case.elapsed();
+    if took > Duration::from_secs(5) {
+        r.count("cases_slower_than_5s", 1);
+        let mut slow = r.extra.get("slow_cases").and_then(|v| v.as_array().cloned()).unwrap_or_default();
+        if slow.len() < 8 {
+            slow.push(json!({"case": case.idx, "kind": case.kind, "seconds": took.as_secs_f64(), "watchdog_fired": stuck,
+                             "jobs_late": jobs_late, "posts": posted.len()}));
+            r.note("slow_cases", Value::Array(slow));
+        }
+    }
+}
+
+#[allow(clippy::too_many_arguments)]
+fn judge(
+    r: &mut Report,
+    store: &Store,
+    scripted: &Scripted,
+    case: &Case,
+    posted: &[Posted],
+    jobs: &[JobPost],
+    thread_id: &str,
+    seed: u64,
+    stuck: bool,
+    sure_nothing_in_flight: bool,
+    any_post_failed: bool,
+    jobs_late: bool,
+) {
+    let idx = case.idx;
+    let witness = |detail: Value| {
+        json!({
+            "case": idx, "seed": seed, "kind": case.kind, "provider_configured": case.provider_configured,
+            "tool_choice": case.choice_label, "stateless_history": case.stateless, "noise_us": case.noise_us,
+            "phases": case.phases.iter().map(|p| p.iter().map(|a| match a {
+                Action::Post { class, with_override, .. } => json!({"post": class, "override": with_override}),
+                Action::CompactionAuto { stride, max_new, dry_run } => json!({"compaction_auto": [stride, max_new, dry_run]}),
+                Action::CompactionSchedule { stride, execute, block_on_inflight } => json!({"compaction_schedule": [stride, execute, block_on_inflight]}),
+            }).collect::<Vec<_>>()).collect::<Vec<_>>(),
+            "delete_blobs_before_phase": case.delete_blobs_before_phase,
+            "detail": detail,
+        })
+    };
+    // read the log (retry while a trailing line is being written by a stuck-but-alive run)
+    let mut frames = None;
+    for _ in 0..20 {
+        match truth::parse_log(&store.log_bytes()) {
+            Ok(f) => {
+                frames = Some(f);
+                break;
+            }
+            Err(_) => std::thread::sleep(Duration::from_millis(20)),
+        }
+    }
+    let Some(frames) = frames else {
+        r.inconclusive(&format!("case {idx}: event log not parseable after quiescence"));
+        return;
+    };
+    r.eval();
+    r.count("frames_judged", frames.len() as u64);
+    r.count("provider_requests", scripted.provider.request_count() as u64);
+    let thread: Vec<&truth::Frame> = truth::stream(&frames, "continuity", thread_id);
+    let class_of: HashMap<&str, &str> = posted
+        .iter()
+        .filter(|p| p.status == 202)
+        .map(|p| (p.session_id.as_str(), p.class.as_str()))
+        .collect();
+
+    // ---- 1. one run_spawned per accepted post
+    let spawned: Vec<&&truth::Frame> = thread.iter().filter(|f| f.ty() == "continuity_run_spawned").collect();
+    let mut accepted_msgs: HashSet<&str> = HashSet::new();
+    for p in posted.iter().filter(|p| p.status == 202) {
+        accepted_msgs.insert(p.message_id.as_str());
+        let mine: Vec<&&&truth::Frame> = spawned.iter().filter(|f| f.s("message_id") == p.message_id).collect();
+        if mine.len() != 1 {
+            r.violation(
+                &format!("C07/run_spawned_count/{}", if mine.is_empty() { "missing" } else { "duplicated" }),
+                &format!("accepted post ({}) has {} continuity_run_spawned frames for its message", p.class, mine.len()),
+                witness(json!({"message_id": p.message_id, "count": mine.len(), "class": p.class})),
+            );
+            continue;
+        }
+        if mine[0].s("run_session_id") != p.session_id {
+            r.violation(
+                "C07/run_spawned_links_other_session",
+                "continuity_run_spawned names a different session than the 202 response",
+                witness(json!({"message_id": p.message_id, "frame": mine[0].s("run_session_id"), "response": p.session_id})),
+            );
+        }
+        // the message itself precedes its run_spawned
+        let msg_line = thread.iter().find(|f| f.ty() == "continuity_message_appended" && f.id() == p.message_id).map(|f| f.line_no);
+        if let Some(ml) = msg_line {
+            if ml > mine[0].line_no {
+                r.violation(
+                    "C07/run_spawned_before_message",
+                    "continuity_run_spawned is logged before the message it belongs to",
+                    witness(json!({"message_id": p.message_id})),
+                );
+            }
+        }
+    }
+    if !any_post_failed {
+        for f in &spawned {
+            if !accepted_msgs.contains(f.s("message_id")) {
+                r.violation(
+                    "C07/run_spawned_for_unposted_message",
+                    "a continuity_run_spawned frame exists for a message no accepted post created",
+                    witness(json!({"message_id": f.s("message_id")})),
+                );
+            }
+        }
+    }
+    r.count("posts_accepted", accepted_msgs.len() as u64);
+    r.count("posts_rejected", posted.iter().filter(|p| p.status != 202).count() as u64);
+
+    // ---- 2. per spawned run
+    let mut shape: Vec<String> = Vec::new();
+    let mut judged_runs = 0u64;
+    let mut seen_sids: HashSet<&str> = HashSet::new();
+    for sp in &spawned {
+        let sid = sp.s("run_session_id");
+        if !seen_sids.insert(sid) {
+            continue; // duplicate spawn already reported above
+        }
+        let class = class_of.get(sid).copied().unwrap_or("unknown");
+        // signatures use the input kind only (+ the end reason where the closing frames are concerned)
+        let kind = class.split('/').next().unwrap_or("unknown");
+        let sess: Vec<&truth::Frame> = truth::stream(&frames, "session", sid);
+        let ended: Vec<&&truth::Frame> = thread
+            .iter()
+            .filter(|f| f.ty() == "continuity_run_ended" && f.s("run_session_id") == sid)
+            .collect();
+        let sess_ended: Vec<&&truth::Frame> = sess.iter().filter(|f| f.ty() == "session_ended").collect();
+        let reason = sess_ended.last().map(|f| f.s("reason")).unwrap_or("");
+
+        if ended.is_empty() {
+            // missing closing frame
+            if stuck && sure_nothing_in_flight {
+                let sig = if sess_ended.is_empty() {
+                    format!("C07/run_never_ended/{kind}")
+                } else {
+                    format!("C07/run_ended_missing_after_session_ended/{kind}/{reason}")
+                };
+                r.violation(
+                    &sig,
+                    &format!(
+                        "run ({class}) has no continuity_run_ended although the provider served everything, no tool is \
+                         executing and the log has been silent for 3 s (session frames: {}, session_ended: {})",
+                        sess.len(),
+                        sess_ended.len()
+                    ),
+                    witness(json!({"session_id": sid, "class": class, "session_frames": sess.len(),
+                                   "last_session_frame": sess.last().map(|f| f.ty().to_string()),
+                                   "provider_requests": scripted.provider.request_count()})),
+                );
+            } else {
+                r.inconclusive(&format!("case {idx}: run ({class}) not ended at watchdog, work possibly in flight"));
+            }
+            continue;
+        }
+        judged_runs += 1;
+        if ended.len() > 1 {
+            r.violation(
+                &format!("C07/run_ended_duplicated/{kind}/{reason}"),
+                &format!("run has {} continuity_run_ended frames", ended.len()),
+                witness(json!({"session_id": sid, "count": ended.len(), "class": class})),
+            );
+        }
+        // session stream shape
+        match sess.first() {
+            Some(f) if f.ty() == "session_started" && f.seq() == 0 => {}
+            other => {
+                r.violation(
+                    &format!("C07/session_not_started_at_seq0/{kind}"),
+                    "the session stream does not start with session_started at seq 0",
+                    witness(json!({"session_id": sid, "first": other.map(|f| json!({"type": f.ty(), "seq": f.seq()}))})),
+                );
+            }
+        }
+        if sess.iter().filter(|f| f.ty() == "session_started").count() > 1 {
+            r.violation(
+                &format!("C07/session_started_duplicated/{kind}"),
+                "more than one session_started frame",
+                witness(json!({"session_id": sid})),
+            );
+        }
+        if sess_ended.len() != 1 {
+            r.violation(
+                &format!(
+                    "C07/session_ended_count/{}/{kind}/{}",
+                    if sess_ended.is_empty() { "missing" } else { "duplicated" },
+                    ended[0].s("reason")
+                ),
+                &format!("session stream has {} session_ended frames (run ended with {:?})", sess_ended.len(), ended[0].s("reason")),
+                witness(json!({"session_id": sid, "count": sess_ended.len(), "class": class,
+                               "reasons": sess_ended.iter().map(|f| f.s("reason").to_string()).collect::<Vec<_>>()})),
+            );
+        }
+        if let Some(last_end) = sess_ended.last() {
+            if let Some(last) = sess.last() {
+                if last.line_no != last_end.line_no {
+                    r.violation(
+                        &format!("C07/frames_after_session_ended/{kind}/{reason}"),
+                        &format!("session_ended is not the last frame of the session stream (a {} frame follows)", last.ty()),
+                        witness(json!({"session_id": sid, "after": last.ty(), "class": class})),
+                    );
+                }
+            }
+            let max_seq = sess.iter().map(|f| f.seq()).max().unwrap_or(0);
+            if last_end.seq() != max_seq {
+                r.violation(
+                    &format!("C07/session_ended_not_highest_seq/{kind}/{reason}"),
+                    "session_ended does not carry the highest seq of its stream",
+                    witness(json!({"session_id": sid, "ended_seq": last_end.seq(), "max_seq": max_seq})),
+                );
+            }
+            // run_ended after the run's own terminal session frame
+            if ended[0].line_no < last_end.line_no {
+                r.violation(
+                    &format!("C07/run_ended_before_session_ended/{kind}/{reason}"),
+                    "continuity_run_ended is logged before the run's own session_ended",
+                    witness(json!({"session_id": sid, "run_ended_line": ended[0].line_no, "session_ended_line": last_end.line_no})),
+                );
+            }
+        }
+        // thread-side order for this run
+        let mine: Vec<&&truth::Frame> = thread
+            .iter()
+            .filter(|f| f.s("run_session_id") == sid)
+            .collect();
+        let pos = |ty: &str| -> Vec<usize> { mine.iter().filter(|f| f.ty() == ty).map(|f| f.line_no).collect() };
+        let p_spawn = sp.line_no;
+        let p_dec = pos("continuity_context_selection_decided");
+        let p_comp = pos("continuity_context_compiled");
+        let p_fx = pos("continuity_tool_side_effects");
+        let p_cur = pos("continuity_provider_cursor_updated");
+        let p_end = ended[0].line_no;
+        if p_dec.len() > 1 || p_comp.len() > 1 || p_cur.len() > 1 {
+            r.violation(
+                &format!("C07/duplicate_context_frames/{kind}"),
+                &format!("run has {} selection-decided, {} context-compiled, {} cursor-updated frames", p_dec.len(), p_comp.len(), p_cur.len()),
+                witness(json!({"session_id": sid})),
+            );
+        }
+        if p_dec.is_empty() != p_comp.is_empty() {
+            r.violation(
+                &format!("C07/selection_and_compiled_not_paired/{kind}/{reason}"),
+                &format!("run has {} selection-decided but {} context-compiled frames", p_dec.len(), p_comp.len()),
+                witness(json!({"session_id": sid})),
+            );
+        }
+        let mut order_ok = true;
+        let mut why = String::new();
+        let mut need = |cond: bool, what: &str| {
+            if !cond && order_ok {
+                order_ok = false;
+                why = what.to_string();
+            }
+        };
+        for f in &mine {
+            if f.ty() != "continuity_run_spawned" {
+                need(f.line_no > p_spawn, "a run frame precedes run_spawned");
+            }
+            if f.ty() != "continuity_run_ended" {
+                need(f.line_no < p_end, "a run frame follows run_ended");
+            }
+        }
+        if let (Some(d), Some(c)) = (p_dec.first(), p_comp.first()) {
+            need(d < c, "context_compiled precedes context_selection_decided");
+        }
+        if let Some(c) = p_comp.first().or(p_dec.first()) {
+            for x in p_fx.iter().chain(p_cur.iter()) {
+                need(x > c, "tool side effects / cursor update precede the context frames");
+            }
+        }
+        if !order_ok {
+            r.violation(
+                &format!("C07/run_frame_order/{}/{kind}", why.replace(' ', "_").replace('/', "-")),
+                &format!("thread frames of one run are out of causal order: {why}"),
+                witness(json!({"session_id": sid, "class": class,
+                               "frames": mine.iter().map(|f| json!([f.line_no, f.ty()])).collect::<Vec<_>>()})),
+            );
+        }
+        r.count("tool_side_effect_frames", p_fx.len() as u64);
+        r.count("cursor_updated_frames", p_cur.len() as u64);
+        r.count("context_compiled_frames", p_comp.len() as u64);
+        r.count(&format!("end_reason_{}", if reason.is_empty() { "none" } else { reason }), 1);
+        shape.push(format!("{class}->{reason}/fx{}", p_fx.len().min(3)));
+        r.count(&format!("run_class_{}", class.split('@').next().unwrap_or(class)), 1);
+    }
+    r.count("runs_judged_to_closing_frame", judged_runs);
+
+    // ---- 3. sessions that are not linked to a spawned run must not exist here
+    let mut session_ids: HashSet<&str> = HashSet::new();
+    for f in &frames {
+        if f.stream_kind() == "session" {
+            session_ids.insert(f.stream_id());
+        }
+    }
+    r.count("session_streams_seen", session_ids.len() as u64);
+
+    // ---- 4. jobs
+    let mut job_spawn: BTreeMap<&str, Vec<usize>> = BTreeMap::new();
+    let mut job_end: BTreeMap<&str, Vec<usize>> = BTreeMap::new();
+    for f in &thread {
+        match f.ty() {
+            "continuity_job_spawned" => job_spawn.entry(f.s("job_id")).or_default().push(f.line_no),
+            "continuity_job_ended" => job_end.entry(f.s("job_id")).or_default().push(f.line_no),
+            _ => {}
+        }
+    }
+    for (job, sp) in &job_spawn {
+        let en = job_end.get(job).cloned().unwrap_or_default();
+        if sp.len() != 1 {
+            r.violation(
+                "C07/job_spawned_duplicated",
+                &format!("job has {} continuity_job_spawned frames", sp.len()),
+                witness(json!({"job_id": job})),
+            );
+        }
+        if en.len() > 1 {
+            r.violation(
+                "C07/job_ended_more_than_once",
+                &format!("job has {} continuity_job_ended frames", en.len()),
+                witness(json!({"job_id": job, "ended": en.len()})),
+            );
+        }
+        if let (Some(s0), Some(e0)) = (sp.first(), en.first()) {
+            if e0 < s0 {
+                r.violation(
+                    "C07/job_ended_before_spawned",
+                    "continuity_job_ended precedes continuity_job_spawned",
+                    witness(json!({"job_id": job})),
+                );
+            }
+        }
+    }
+    for job in job_end.keys() {
+        if !job_spawn.contains_key(job) {
+            r.violation(
+                "C07/job_ended_without_spawn",
+                "continuity_job_ended for a job id that was never spawned",
+                witness(json!({"job_id": job})),
+            );
+        }
+    }
+    for j in jobs {
+        if let Some(id) = &j.job_id {
+            if j.status == 202 && !job_spawn.contains_key(id.as_str()) {
+                r.violation(
+                    &format!("C07/job_accepted_without_spawn_frame/{}", j.route),
+                    "a 202 job response names a job id that has no continuity_job_spawned frame",
+                    witness(json!({"job_id": id, "route": j.route})),
+                );
+            }
+        }
+    }
+    if stuck || jobs_late {
+        let unended_jobs: Vec<&str> = jobs
+            .iter()
+            .filter(|j| j.executes)
+            .filter_map(|j| j.job_id.as_deref())
+            .filter(|id| !job_end.contains_key(id))
+            .collect();
+        if !unended_jobs.is_empty() {
+            r.count("executed_jobs_without_job_ended_after_grace", unended_jobs.len() as u64);
+        }
+    }
+    r.count("jobs_spawned", job_spawn.len() as u64);
+    r.count("jobs_ended", job_end.len() as u64);
+    r.count("job_posts", jobs.len() as u64);
+
+    if judged_runs > 0 {
+        shape.sort();
+        let par = case.phases.iter().map(|p| p.len()).max().unwrap_or(0);
+        r.distinct_str(&format!("{}|par{}|jobs{}|{}", case.kind, par, job_spawn.len().min(3), shape.join(",")));
+    }
+    if r.samples.len() < r.max_samples && (case.kind != "reset_sweep" || idx == 0) {
+        let mut shape_counts: BTreeMap<String, u32> = BTreeMap::new();
+        for x in &shape {
+            *shape_counts.entry(x.clone()).or_insert(0) += 1;
+        }
+        let shape = shape_counts;
+        r.sample(json!({
+            "case": idx, "kind": case.kind, "provider_configured": case.provider_configured, "tool_choice": case.choice_label,
+            "phases": case.phases.iter().map(|p| p.len()).collect::<Vec<_>>(),
+            "runs": shape, "jobs_spawned": job_spawn.len(), "jobs_ended": job_end.len(),
+            "frames": frames.len(), "provider_requests": scripted.provider.request_count(),
+        }));
+    }
 }
